@@ -258,6 +258,44 @@ def crowd_case(args) -> Dict[str, Any]:
     return {"problems": probs, "distinct_ids": 0, "rounds": env.rounds, "wrapped": True}
 
 
+def late_identify_case(args) -> Dict[str, Any]:
+    """connections are ACCEPTED in one order and identify themselves in another (a proxy opens its sockets first and sends the
+    handshakes later): X's TCP connection is accepted first, Y is accepted and connects, only then X sends its own request for the
+    same id / the same name. The verdict on X depends on who is connected now, not on where X sits in the manager's table."""
+    tc, yreq, xreq, between = args
+    mmx.fresh_gc()
+    env = lock.Env(timecode=tc, fin_grace=0, hids={"M": 1, "X": 2, "Y": 3, "Z": 4})
+    probs = []
+    try:
+        for ev in [["conn", "M"], ev_send("M", P.mkframe(P.MT_CONNECT, P.p_connect(), timecode=tc, src_mod_id=90)), ["settle"],
+                   ev_send("M", P.mkframe(P.MT_SUBSCRIBE, P.p_sub(P.MT_CLIENT_INFO), timecode=tc, src_mod_id=90)), ["settle"]]:
+            env.apply(ev)
+        env.apply(["conn", "X"])
+        env.settle()
+        if between:
+            env.apply(["conn", "Z"])
+            env.settle()
+        for ev in _req_events(tc, "Y", yreq) + [["settle"]]:
+            env.apply(ev)
+        if between:
+            for ev in _req_events(tc, "Z", ("v2", 44, 0, b"zed"))[1:] + [["settle"]]:
+                env.apply(ev)
+        for ev in _req_events(tc, "X", xreq)[1:] + [["settle"]]:
+            env.apply(ev)
+        # the invariant on the manager's own table
+        try:
+            mods = [m for m in env.w.mgr.modules.values() if m.connected and m is not env.w.mgr.mm_module]
+            for a_, b_ in itertools.combinations(mods, 2):
+                if a_.mod_id == b_.mod_id and (a_.unique or b_.unique):
+                    probs.append({"prop": "C06", "kind": "two-modules-share-an-id", "id": a_.mod_id, "unique": [a_.unique, b_.unique]})
+        except Exception:
+            pass
+        probs += [dict(p) for p in env.problems if p["prop"] in ("C06", "C03", "C19")]
+    finally:
+        env.close()
+    return {"problems": probs, "distinct_ids": 0, "rounds": env.rounds, "wrapped": True}
+
+
 def order_case(args) -> Dict[str, Any]:
     """long-lived dynamic modules whose order in the manager's table is a given permutation of their id order (each one left and
     came back to its old id after a full turn of the cursor); then another full turn of connect/disconnect cycles: no newcomer is
@@ -576,6 +614,9 @@ def run_chunk(items):
         if kind == "crowd":
             out.append(crowd_case(args))
             continue
+        if kind == "late":
+            out.append(late_identify_case(args))
+            continue
         if kind == "reconnect":
             out.append(reconnect_case(args))
             continue
@@ -621,6 +662,12 @@ def run(tier: str) -> int:
         # longer runs of ids in use when the cursor comes round again
         for keep in ((0, 1, 2, 3, 4), (0, 2, 3, 4, 5, 6, 7), tuple(range(12))):
             items.append(("wrap", (tc, keep, 105 if tier == "quick" else 230)))
+        yreqs = [("v2", 5, 0, b"n"), ("v2", 5, 1, b"n"), ("v2", 0, 0, b"n"), ("v1", 5, 0, b""), ("v21", 5, 1, b"")]
+        xreqs = [("v2", 5, 0, b""), ("v2", 5, 1, b""), ("v2", 6, 0, b"n"), ("v2", 6, 1, b"n"), ("v1", 5, 0, b""), ("v2", 0, 0, b"n"), ("v21", 5, 1, b"n")]
+        for yr in yreqs:
+            for xr in xreqs:
+                for between in (False, True):
+                    items.append(("late", (tc, yr, xr, between)))
         for ns, nq in ((98, 0), (98, 5), (60, 60), (0, 130), (98, 130)):
             items.append(("crowd", (tc, ns, nq)))
         # the holders sit in the manager's table in every order relative to their ids
@@ -654,7 +701,7 @@ def run(tier: str) -> int:
         if kind == "incumbent":
             totals["incumbent_cases"] = totals.get("incumbent_cases", 0) + 1
             totals["transitions"] = totals.get("transitions", 0) + r.get("rounds", 0)
-        elif kind in ("wrap", "order", "crowd"):
+        elif kind in ("wrap", "order", "crowd", "late"):
             wraps += 1
             totals["transitions"] = totals.get("transitions", 0) + r["rounds"]
             if not r["wrapped"]:
@@ -683,6 +730,9 @@ def replay(case) -> int:
         r = reconnect_case(tuple(args))
     elif kind == "crowd":
         r = crowd_case(tuple(args))
+    elif kind == "late":
+        fix = lambda q: (q[0], q[1], q[2], q[3].encode("latin-1") if isinstance(q[3], str) else bytes(q[3]))
+        r = late_identify_case((args[0], fix(args[1]), fix(args[2]), args[3]))
     elif kind in ("wrap", "order"):
         args = (args[0], tuple(args[1]), args[2])
         r = wrap_case(args) if kind == "wrap" else order_case(args)
